@@ -5,7 +5,14 @@ not ignored (and contain the subpath constraints), every solution decodes to suc
 monotone in k (T3); the stop-search with a faithful solver and a valid lower bound returns the minimum (T4,
 mincover_search); an antichain is a lower bound, for digraphs with cycles too, and pairwise unreachability makes an
 antichain (T5, antichain_of_unreachable); an integral feasible flow of cost c decomposes into c covering paths and,
-together with an antichain of the same size, certifies the minimum (T6, width_certificate).
+together with an antichain of the same size, certifies the minimum (T6, width_certificate). Cyclic T1
+(walkcover_sound, walkcover_hascover): every solution of the kPathCoverCycles LP decodes to k routes of the user's graph
+(source-to-sink walks of the augmented graph once the stripped synthetic endpoints are put back) covering every edge that
+is not ignored and, at coverage fraction 1, containing every subset constraint. For digraphs with cycles an integral feasible
+flow of the instance stDiGraph.get_width builds on the expanded condensation lifts to that many source-to-sink walks
+covering every edge that is not ignored (condensation_flow_to_walkcover), so with an antichain of pairwise unreachable
+edges of the same size the cost is the minimum walk cover (digraph_width_is_min_walk_cover); the three extra hypotheses
+(edges join nodes, no isolated node, no duplicate in edges_to_ignore) are each necessary (cwc_needs_*).
 Tie: K2 LP dumps of kPathCover / kPathCoverCycles; K3 search traces of MinPathCover / MinPathCoverCycles (props.c13
 machinery); K1 the demands get_width puts on the min-flow instance (DAG and expanded condensation) against the Lean
 model; K5 brute-force minimum covers (written against the property text, no flows, no condensation) against
@@ -24,8 +31,12 @@ THEOREMS = ["FP.Props.C09.kcover_sound", "FP.Props.C09.kcover_complete", "FP.Pro
             "FP.Props.C09.flow_to_cover", "FP.Props.C09.width_certificate", "FP.Props.C09.dag_width_demands",
             "FP.Props.C09.walkcover_condensation_lower_bound", "FP.Props.C09.inter_scc_unreachable",
             "FP.Props.C09.mincover2",
+            "FP.Props.C09.walkcover_sound", "FP.Props.C09.walkcover_hascover",
+            "FP.Props.C09.walkcover_optimal_has_cover", "FP.Props.C09.walkcover_sound_literal_false",
+            "FP.Props.C09.condensation_flow_to_walkcover", "FP.Props.C09.digraph_width_is_min_walk_cover",
+            "FP.Props.C09.cyc1_cover", "FP.cwc_needs_closed", "FP.cwc_needs_no_isolated", "FP.cwc_needs_nodup",
             "FP.Props.C13.search_sound", "FP.Props.C13.search_complete", "FP.Props.C01.pathcore_sound"]
-IMPORTS = ["FP.Props.C09", "FP.Props.C13", "FP.Props.C01"]
+IMPORTS = ["FP.Props.C09", "FP.Props.C13", "FP.Props.C01", "FP.Proofs.CondWalkCoverNeeds"]
 K2_ADAPTERS = ["kcover", "kcoverc"]
 RULE = ("K5.dag: random DAGs with at most 8 edges, random ignore sets leaving at least one edge, additional starts/ends, "
         "subpath constraints at coverage 1, edge and node cover type; K5.cyc: digraphs with cycles (self-loops, 2-cycles, "
@@ -37,15 +48,24 @@ RULE = ("K5.dag: random DAGs with at most 8 edges, random ignore sets leaving at
         "plans of props.c13 on MinPathCover / MinPathCoverCycles.")
 MODEL_SCOPE = ("modelled and proven: kPathCover LP (cover_type='edge', subpath constraints at coverage fraction 1 or none, no "
                "length coverage, safety optimisations adding nothing), MinPathCover search loop, antichain lower bound, flow "
-               "decomposition on DAGs; modelled (K1/K2) without proof: kPathCoverCycles LP, the demands of stDiGraph.get_width on "
-               "the expanded condensation; not modelled: network simplex, the residual search extracting the antichain (their "
+               "decomposition on DAGs, soundness of the kPathCoverCycles LP (every solution decodes to k covering source-to-sink "
+               "walks; subset constraints at coverage fraction 1; safety optimisations off, C05 shows they change nothing), the "
+               "min-flow instance of stDiGraph.get_width on the expanded condensation (K1) with the flow-to-walk-cover direction "
+               "(given the SCC labelling, every edge on a source-to-sink walk, a duplicate-free edges_to_ignore); modelled (K1/K2) "
+               "without proof: completeness of the kPathCoverCycles LP (walks -> assignment within the repetition caps); not "
+               "proven: min-flow / max-antichain strong duality; not modelled: network simplex, the residual search extracting "
+               "the antichain (their "
                "outputs are checked per run as certificates), safety optimisations of the k-models, node expansion (C11)")
 TRUSTED = ["HiGHS reports kOptimal only with an assignment satisfying the LP and kInfeasible only for infeasible LPs "
            "(re-checked end to end: solved iff k >= brute-force minimum)",
            "nx.condensation returns the strongly connected components (the SCC labelling is an oracle parameter of the "
            "Lean model of stDiGraph.get_width)"]
 ASSUMPTIONS = ["coverage fraction 1 for subpath/subset constraints in the end-to-end oracles (fractions < 1 are covered by K2 only)",
-               "at least one edge (node) is not ignored"]
+               "at least one edge (node) is not ignored",
+               "edges_to_ignore passed to stDiGraph.get_width has no duplicate entries (edge_multiplicity is decremented once per "
+               "entry: FP.cwc_needs_nodup shows the width can come out too small otherwise; K1 still compares such lists)",
+               "every edge of the digraph lies on a walk from the global source to the global sink (fails for cycles without an "
+               "entry from a source: stDiGraph attaches the source only to nodes of in-degree 0)"]
 
 
 # ===================================================================== brute force (property text only)
